@@ -896,3 +896,121 @@ Proof.
   destruct (ap_tl p) eqn:Etl; [|reflexivity]. cbn. destruct (Htl eq_refl) as (_ & _ & Hw).
   destruct (WR p w Hpw Etl) as [_ Hsw]. rewrite Hsw. apply Z.leb_le. exact Hw.
 Qed.
+
+(** ** Part E: the monitor's window bookkeeping follows the model *)
+Definition elmap (s : state) (d : denom) : option Z := option_map as_el (get d (st_assets s)).
+Definition Quiet (s s' : state) : Prop :=
+  (forall d, elmap s' d = elmap s d) /\ st_time s' = st_time s /\ st_prev s' = st_prev s.
+
+Lemma Quiet_refl s : Quiet s s.
+Proof. repeat split; reflexivity. Qed.
+Lemma Quiet_trans s1 s2 s3 : Quiet s1 s2 -> Quiet s2 s3 -> Quiet s1 s3.
+Proof. intros (E1 & T1 & P1) (E2 & T2 & P2). split; [intros d; rewrite E2; apply E1|]. split; congruence. Qed.
+Lemma Quiet_same s s' : st_assets s' = st_assets s -> st_time s' = st_time s -> st_prev s' = st_prev s -> Quiet s s'.
+Proof. intros Ha Ht Hp. split; [intros d; unfold elmap; rewrite Ha; reflexivity|]. auto. Qed.
+
+Definition keeps_el (f : aparam -> asup -> option asup) : Prop := forall p a a', f p a = Some a' -> as_el a' = as_el a.
+
+Ltac keeps_el_tac := intros p a a'; cbv beta delta [inc_current dec_current inc_incoming dec_incoming inc_outgoing dec_outgoing];
+  repeat match goal with |- context [if ?b then _ else _] => destruct b end; intros H; inversion H; reflexivity.
+Lemma ke_inc_current x : keeps_el (inc_current x). Proof. keeps_el_tac. Qed.
+Lemma ke_dec_current x : keeps_el (dec_current x). Proof. keeps_el_tac. Qed.
+Lemma ke_inc_incoming x : keeps_el (inc_incoming x). Proof. keeps_el_tac. Qed.
+Lemma ke_dec_incoming x : keeps_el (dec_incoming x). Proof. keeps_el_tac. Qed.
+Lemma ke_inc_outgoing x : keeps_el (inc_outgoing x). Proof. keeps_el_tac. Qed.
+Lemma ke_dec_outgoing x : keeps_el (dec_outgoing x). Proof. keeps_el_tac. Qed.
+
+Lemma with_asset_quiet s d f s' : keeps_el f -> with_asset s d f = Some s' -> Quiet s s' /\ st_win s' = st_win s.
+Proof.
+  intros Hk H. destruct (with_asset_Some _ _ _ _ H) as (a & p & a' & Ha & _ & Hf & ->).
+  split; [|reflexivity]. split; [|split; reflexivity]. intros d0. unfold elmap. sproj. rewrite get_set.
+  destruct (eq_dec d0 d) as [->|]; [|reflexivity]. rewrite Ha. simpl. f_equal. exact (Hk _ _ _ Hf).
+Qed.
+
+Definition QuietW (s s' : state) : Prop := Quiet s s' /\ st_win s' = st_win s.
+Lemma QuietW_refl s : QuietW s s. Proof. split; [apply Quiet_refl|reflexivity]. Qed.
+Lemma QuietW_trans s1 s2 s3 : QuietW s1 s2 -> QuietW s2 s3 -> QuietW s1 s3.
+Proof. intros [Q1 W1] [Q2 W2]. split; [exact (Quiet_trans _ _ _ Q1 Q2)|congruence]. Qed.
+Lemma QuietW_same s s' : st_assets s' = st_assets s -> st_time s' = st_time s -> st_prev s' = st_prev s -> st_win s' = st_win s -> QuietW s s'.
+Proof. intros. split; [apply Quiet_same; assumption|assumption]. Qed.
+
+Lemma lock_coins_quiet s id from amt s' : lock_coins s id from amt = Some s' -> QuietW s s'.
+Proof. unfold lock_coins. destruct (send_coins _ _ _ _); [|discriminate]. intros H; inversion H. apply QuietW_same; reflexivity. Qed.
+Lemma pay_out_quiet s id r amt s' : pay_out s id r amt = Some s' -> QuietW s s'.
+Proof. unfold pay_out. destruct (blocked r); [discriminate|]. destruct (send_coins _ _ _ _); [|discriminate]. intros H; inversion H. apply QuietW_same; reflexivity. Qed.
+Lemma burn_quiet s id amt s' : burn s id amt = Some s' -> QuietW s s'.
+Proof. unfold burn. destruct (debit_coins _ _ _); [|discriminate]. intros H; inversion H. apply QuietW_same; reflexivity. Qed.
+
+Lemma create_quiet s m s' : create s m = Some s' -> QuietW s s'.
+Proof.
+  unfold create. destruct (negb (create_basic m)); [discriminate|]. destruct (blocked (m_to m)); [discriminate|].
+  destruct (m_to m =? ESC); [discriminate|].
+  cbv zeta. destruct (has (id_of m) (st_contracts s)); [discriminate|]. destruct (m_transfer m).
+  - destruct (create_htlt s m) as [[s1 dr]|] eqn:Hh; [|discriminate]. intros H; inversion H; subst s'.
+    apply (QuietW_trans _ s1); [|apply QuietW_same; reflexivity].
+    destruct (create_htlt_Some _ _ _ _ Hh) as (d & x & p & Ham & Hp & [[_ Hw]|[_ (s0 & Hw & Hl)]]).
+    + exact (with_asset_quiet _ _ _ _ (ke_inc_incoming x) Hw).
+    + exact (QuietW_trans _ _ _ (with_asset_quiet _ _ _ _ (ke_inc_outgoing x) Hw) (lock_coins_quiet _ _ _ _ _ Hl)).
+  - destruct (lock_coins s (id_of m) (m_sender m) (m_amount m)) as [s1|] eqn:Hl; [|discriminate].
+    intros H; inversion H; subst s'. apply (QuietW_trans _ s1); [exact (lock_coins_quiet _ _ _ _ _ Hl)|apply QuietW_same; reflexivity].
+Qed.
+
+Lemma refund_quiet s id c : QuietW s (refund s id c).
+Proof.
+  unfold refund. cbv zeta. destruct (c_transfer c).
+  - destruct (c_amount c) as [|[d x] cs]; [apply QuietW_refl|]. destruct (c_dir c); [apply QuietW_refl| |].
+    + destruct (with_asset s d (dec_incoming x)) as [s1|] eqn:H1; [|apply QuietW_refl].
+      apply (QuietW_trans _ s1); [exact (with_asset_quiet _ _ _ _ (ke_dec_incoming x) H1)|apply QuietW_same; reflexivity].
+    + destruct (with_asset s d (dec_outgoing x)) as [s1|] eqn:H1; [|apply QuietW_refl].
+      apply (QuietW_trans _ s1); [exact (with_asset_quiet _ _ _ _ (ke_dec_outgoing x) H1)|].
+      destruct (pay_out s1 id (c_sender c) ((d, x) :: cs)) as [s2|] eqn:H2; [|apply QuietW_refl].
+      apply (QuietW_trans _ s2); [exact (pay_out_quiet _ _ _ _ _ H2)|apply QuietW_same; reflexivity].
+  - destruct (pay_out s id (c_sender c) (c_amount c)) as [s1|] eqn:H1; [|apply QuietW_refl].
+    apply (QuietW_trans _ s1); [exact (pay_out_quiet _ _ _ _ _ H1)|apply QuietW_same; reflexivity].
+Qed.
+
+Lemma refund_one_quiet h s id : QuietW s (refund_one h s id).
+Proof.
+  unfold refund_one. destruct (get id (st_contracts s)) as [c|].
+  - apply (QuietW_trans _ (refund s id c)); [apply refund_quiet|apply QuietW_same; reflexivity].
+  - apply QuietW_same; reflexivity.
+Qed.
+
+Lemma fold_quiet {A} (f : state -> A -> state) : (forall s x, QuietW s (f s x)) -> forall l s, QuietW s (fold_left f l s).
+Proof. intros Hf. induction l as [|x l IH]; intros s; simpl; [apply QuietW_refl|]. exact (QuietW_trans _ _ _ (Hf s x) (IH _)). Qed.
+
+(** a claim: clock and elapsed times untouched; the window grows by the completed incoming amount *)
+Lemma claim_quiet_win s who id secret s' : claim s who id secret = Some s' ->
+  Quiet s s' /\ exists c, get id (st_contracts s) = Some c
+    /\ st_win s' = (if c_transfer c then match c_amount c, c_dir c with
+                                        | (d, x) :: _, Incoming => set d (sup_of (st_win s) d + x) (st_win s)
+                                        | _, _ => st_win s end
+                    else st_win s).
+Proof.
+  unfold claim. destruct (negb (addr_ok who)); [discriminate|].
+  destruct (get id (st_contracts s)) as [c|]; [|discriminate]. destruct (c_state c); try discriminate.
+  destruct (negb (secret_ok c secret)); [discriminate|].
+  destruct (c_transfer c) eqn:Htr.
+  - destruct (claim_htlt s id c) as [s1|] eqn:Hb; [|discriminate]. intros H; inversion H; subst s'.
+    split.
+    + apply (Quiet_trans _ s1); [|apply Quiet_same; reflexivity].
+      unfold claim_htlt in Hb. destruct (c_amount c) as [|[d x] cs]; [discriminate|]. destruct (c_dir c); [discriminate| |].
+      * destruct (with_asset s d (dec_incoming x)) as [s2|] eqn:H1; [|discriminate].
+        destruct (with_asset s2 d (inc_current x)) as [s3|] eqn:H2; [|discriminate].
+        apply (Quiet_trans _ s2); [exact (proj1 (with_asset_quiet _ _ _ _ (ke_dec_incoming x) H1))|].
+        apply (Quiet_trans _ s3); [exact (proj1 (with_asset_quiet _ _ _ _ (ke_inc_current x) H2))|].
+        apply (Quiet_trans _ (add_win (mint s3 id ((d, x) :: cs)) d x)); [apply Quiet_same; reflexivity|].
+        exact (proj1 (pay_out_quiet _ _ _ _ _ Hb)).
+      * destruct (with_asset s d (dec_outgoing x)) as [s2|] eqn:H1; [|discriminate].
+        destruct (with_asset s2 d (dec_current x)) as [s3|] eqn:H2; [|discriminate].
+        apply (Quiet_trans _ s2); [exact (proj1 (with_asset_quiet _ _ _ _ (ke_dec_outgoing x) H1))|].
+        apply (Quiet_trans _ s3); [exact (proj1 (with_asset_quiet _ _ _ _ (ke_dec_current x) H2))|].
+        exact (proj1 (burn_quiet _ _ _ _ Hb)).
+    + exists c. split; [reflexivity|]. rewrite Htr. unfold dequeue, set_contract. sproj.
+      destruct (c_amount c) as [|[d x] cs] eqn:Ham; [unfold claim_htlt in Hb; rewrite Ham in Hb; discriminate|].
+      rewrite (claim_htlt_win s id c s1 d x cs Ham Hb). destruct (c_dir c); reflexivity.
+  - destruct (pay_out s id (c_to c) (c_amount c)) as [s1|] eqn:Hb; [|discriminate]. intros H; inversion H; subst s'.
+    destruct (pay_out_quiet _ _ _ _ _ Hb) as [Q Wn]. split.
+    + apply (Quiet_trans _ s1); [exact Q|apply Quiet_same; reflexivity].
+    + exists c. split; [reflexivity|]. rewrite Htr. unfold dequeue, set_contract. sproj. exact Wn.
+Qed.
